@@ -91,6 +91,7 @@ async fn verify_append_only_hash<TC: Configuration>(
     expected_hash: Digest,
     latest_epoch: Option<u64>,
 ) -> Result<(), AkdError> {
+    verify_prefix_free(&nodes)?;
     let manager = StorageManager::new_no_cache(
         AsyncInMemoryDatabase::new_with_remove_child_nodes_on_insertion(),
     );
@@ -114,6 +115,34 @@ async fn verify_append_only_hash<TC: Configuration>(
                 hex::encode(computed_hash)
             ),
         )));
+    }
+    Ok(())
+}
+
+/// Verifies that no label in the node set is equal to, or a prefix of, another label in
+/// the set. The tree construction silently drops an element whose label coincides with (or is
+/// shadowed by) the label of the subtree it is inserted under, so a node set which is not
+/// prefix-free could replace or remove part of the earlier tree without changing the start hash.
+fn verify_prefix_free(nodes: &[AzksElement]) -> Result<(), AkdError> {
+    // normalize (zero out the bits beyond the label's length) and sort lexicographically, with a
+    // prefix sorting directly before its extensions: a set of bit strings is prefix-free if
+    // and only if no two neighbours in this order are prefix-related
+    let mut labels = nodes
+        .iter()
+        .map(|node| node.label.get_prefix(node.label.label_len))
+        .collect::<Vec<_>>();
+    labels.sort_by(|a, b| {
+        a.label_val
+            .cmp(&b.label_val)
+            .then(a.label_len.cmp(&b.label_len))
+    });
+    for pair in labels.windows(2) {
+        if pair[0].is_prefix_of(&pair[1]) {
+            return Err(AkdError::AuditErr(AuditorError::VerifyAuditProof(format!(
+                "The proof contains overlapping nodes: label {} is equal to or a prefix of label {}",
+                pair[0], pair[1]
+            ))));
+        }
     }
     Ok(())
 }
